@@ -102,7 +102,11 @@ def _legacy_parts(pre):
     return tk[:vi[0]], tk[vi[0]], tk[vi[0] + 1:vi[1]], tk[vi[1]], tk[vi[1] + 1:-2], tk[-2:], tk
 
 
-_LEGACY_ASSUME = {"input_index >= len(self.tx_ins)": False, "input_index >= len(self.tx_outs)": False}
+# the out-of-range exits are decided separately (c05_2, key single-bug:*); for the layout the in-range case is assumed,
+# whichever strictness the bound test is written with
+_LEGACY_ASSUME = {"input_index >= len(self.tx_ins)": False, "input_index >= len(self.tx_outs)": False,
+                  "input_index > len(self.tx_ins)": False, "input_index > len(self.tx_outs)": False,
+                  "input_index == len(self.tx_ins)": False, "input_index == len(self.tx_outs)": False}
 
 
 def c05_1(ctx):
@@ -191,6 +195,26 @@ def c05_2(ctx):
     mod, fn = rl.get(ctx, spec)
     cfg = cfg_of(fn)
     f = Folder(ctx.repo, mod.name)
+    # ... and the bounds under which they fire: index >= number of inputs; SINGLE and index >= number of outputs
+    for what, cnt in (("inputs", "len(self.tx_ins)"), ("outputs", "len(self.tx_outs)")):
+        sites = []
+        for n in cfg.tests():
+            ex = expand(fn, n.id, n.ast) if isinstance(n.ast, ast.Compare) else n.ast
+            if isinstance(ex, ast.Compare) and len(ex.ops) == 1:
+                ex2 = ast.Compare(left=expand(fn, n.id, ex.left), ops=ex.ops, comparators=[expand(fn, n.id, ex.comparators[0])])
+                r = rl.rel(ex2, "input_index", cnt)
+                if r is not None:
+                    sites.append((n, r))
+        if not sites:
+            out.append(ctx.err(spec, "bound test of input_index against the number of %s not found" % what, fn, mod))
+            continue
+        for n, r in sites:
+            # the edge on which the index is out of range must be exactly `index >= count`
+            if r in (">=", "<"):
+                out.append(ctx.ok(spec, "out-of-range rule for %s fires exactly when input_index >= %s" % (what, cnt), n.ast, mod, key="single-bug:" + what))
+            else:
+                out.append(ctx.bad(spec, "out-of-range rule for %s is tested as `input_index %s %s`; the algorithm returns the constant 1 whenever input_index >= %s "
+                                         "(e.g. 3 inputs, 2 outputs, SIGHASH_SINGLE on input 2 hashes a preimage instead)" % (what, r, cnt, cnt), n.ast, mod, key="single-bug:" + what))
     consts = []
     for n in cfg.returns():
         v = n.ast.value
@@ -591,6 +615,22 @@ def c05_9(ctx):
     return [ctx.bad(spec, "annex handling uses different predicates: %s" % sorted(texts), fn, mod, key="annex-pred")]
 
 
+def c05_10(ctx):
+    """BIP341 annex predicate used by the message (spend_type bit 0 and sha_annex): annex present iff the witness has at
+    least two elements and the last one starts with 0x50.  (A key-path witness is one element — a signature starting with
+    0x50, 1 in 256, must not be taken for an annex.)"""
+    from rules.C06 import annex_accept
+
+    mod, fn, acc = annex_accept(ctx)
+    want = ISet.range(2, None)
+    if acc == want:
+        return [ctx.ok("witness:Witness.has_annex", "annex is reported for witnesses with >= 2 items only (len(items) ∈ %s)" % acc, fn, mod, key="annex-domain")]
+    diff = acc.minus(want).union(want.minus(acc))
+    k = diff.witness((1, 0, 2))
+    return [ctx.bad("witness:Witness.has_annex", "has_annex() can be true exactly for len(items) ∈ %s, BIP341: >= 2; with %s item(s) the taproot message gets the wrong "
+                    "spend_type / sha_annex (a key-path spend whose signature starts with 0x50 is hashed as if it had an annex)" % (acc, k), fn, mod, key="annex-domain")]
+
+
 OBLIGATIONS = [
     ("C05.1", "COUNT", c05_1),
     ("C05.2", "LAYOUT vs spec", c05_2),
@@ -600,5 +640,6 @@ OBLIGATIONS = [
     ("C05.6", "MEMO", c05_6),
     ("C05.7", "MEMO init", c05_7),
     ("C05.9", "DATAFLOW", c05_9),
+    ("C05.10", "RANGE accept-set", c05_10),
 ]
 FLOORS = {"C05.1": 12, "C05.2": 7, "C05.3": 9, "C05.4": 28, "C05.5": 8}
